@@ -962,10 +962,15 @@ func c12Post(c *Ctx) {
 }
 
 // ---------- IssueInstant on the wire and the IdP's freshness bound ----------
+var clockZones = []*time.Location{time.UTC, time.FixedZone("IST", 5*3600+1800), time.FixedZone("EST", -5*3600), time.FixedZone("PST", -8*3600),
+	time.FixedZone("CET", 3600), time.FixedZone("odd", -120), time.FixedZone("LINT", 14*3600), time.FixedZone("AoE", -12*3600), time.FixedZone("NPT", 5*3600+2700)}
+
 func c12IssueInstant(c *Ctx) {
 	g := c.Group("issueinstant", []string{"UrlEnc", "TimeModel", "Outbound", "OutboundIdP"}, "iicase", "check_iicases")
-	oldNow, oldRand := saml.TimeNow, saml.RandReader
-	defer func() { saml.TimeNow, saml.RandReader = oldNow, oldRand }()
+	oldNow, oldRand, oldLocal := saml.TimeNow, saml.RandReader, time.Local
+	defer func() { saml.TimeNow, saml.RandReader, time.Local = oldNow, oldRand, oldLocal }()
+	// the process's local zone is an odd one: nothing may depend on it
+	time.Local = time.FixedZone("harness-local", -(9*3600 + 1800))
 	saml.RandReader = &recReader{src: c.Rng}
 	base := time.Date(2024, 5, 6, 7, 8, 9, 0, time.UTC)
 	var clocks []time.Time
@@ -979,6 +984,93 @@ func c12IssueInstant(c *Ctx) {
 	}
 	for i := 0; i < n; i++ {
 		clocks = append(clocks, time.Unix(c.Rng.Int63n(4102444800), c.Rng.Int63n(1e9)).UTC())
+	}
+	// the clock the library reads (saml.TimeNow) reports each instant in a rotating zone, and once in time.Local
+	for i := range clocks {
+		if i%10 == 9 {
+			clocks[i] = clocks[i].In(time.Local)
+		} else {
+			clocks[i] = clocks[i].In(clockZones[i%len(clockZones)])
+		}
+	}
+	addCase := func(now time.Time, kind string, text string, atBound, after bool, specOK *bool) {
+		_, off := now.Zone()
+		ns := new(big.Int).Mul(big.NewInt(now.Unix()), big.NewInt(1e9))
+		ns.Add(ns, big.NewInt(int64(now.Nanosecond())))
+		c.Count("issueinstant/kind/" + kind)
+		c.Count(fmt.Sprintf("issueinstant/zone_offset_s/%d", off))
+		c.Count(fmt.Sprintf("issueinstant/sub_ms/%v", now.Nanosecond()%1000000 != 0))
+		c.Add(g, &Case{
+			Key:   map[string]string{"op": "issue_instant", "kind": kind, "zone_offset": fmt.Sprint(off)},
+			Input: map[string]any{"sp_clock": now.Format(time.RFC3339Nano), "zone_offset_seconds": off, "message": kind, "max_issue_delay": saml.MaxIssueDelay.String()},
+			Obs:   map[string]any{"IssueInstant": text, "idp_accepts_at_instant_plus_delay": atBound, "idp_accepts_one_ns_later": after},
+			Term: fmt.Sprintf("{| ii_now := %s; ii_off := %s; ii_text := %s; ii_at_bound := %s; ii_after_bound := %s |}",
+				emit.ZBig(ns.String()), emit.Z(int64(off)), emit.Str(text), emit.Bool(atBound), emit.Bool(after)),
+			ImplSpecOK: specOK,
+		})
+	}
+	// every other outbound builder, both bindings: the IssueInstant read back from the wire
+	for i, now := range clocks {
+		if !c.Thorough() && i%2 == 1 {
+			continue
+		}
+		now := now
+		o := defaultOpts()
+		if i%4 == 0 {
+			o.method = dsig.RSASHA256SignatureMethod
+		}
+		sp := buildSP(o)
+		for k, kind := range []string{"LogoutRequest/redirect", "LogoutRequest/post", "LogoutResponse/redirect", "LogoutResponse/post", "ArtifactResolve"} {
+			if !c.Thorough() && (i/2+k)%2 == 1 {
+				continue
+			}
+			text := ""
+			var specOK *bool
+			p, _ := guard(func() {
+				saml.TimeNow = func() time.Time { return now }
+				var wire []byte
+				switch k {
+				case 0:
+					u, err := sp.MakeRedirectLogoutRequest("u", "rs")
+					if err == nil {
+						wire, _ = inflate64(queryOf(u.String()).Get("SAMLRequest"))
+					}
+				case 1:
+					h, err := sp.MakePostLogoutRequest("u", "rs")
+					if err == nil {
+						v, _ := formValueOf(h, "SAMLRequest")
+						wire, _ = base64.StdEncoding.DecodeString(v)
+					}
+				case 2:
+					u, err := sp.MakeRedirectLogoutResponse("id-1", "rs")
+					if err == nil {
+						wire, _ = inflate64(queryOf(u.String()).Get("SAMLResponse"))
+					}
+				case 3:
+					h, err := sp.MakePostLogoutResponse("id-1", "rs")
+					if err == nil {
+						v, _ := formValueOf(h, "SAMLResponse")
+						wire, _ = base64.StdEncoding.DecodeString(v)
+					}
+				default:
+					r, err := sp.MakeArtifactResolveRequest("artifact")
+					if err == nil {
+						wire = docBytes(r.SoapRequest())
+					}
+				}
+				root := parseRoot(wire)
+				if k == 4 && root != nil {
+					root = child(child(root, "Body"), "ArtifactResolve")
+				}
+				if root != nil {
+					text = root.SelectAttrValue("IssueInstant", "")
+				}
+			})
+			if p {
+				specOK = Bptr(false)
+			}
+			addCase(now, kind, text, true, false, specOK)
+		}
 	}
 	for i, now := range clocks {
 		now := now
@@ -1047,18 +1139,8 @@ func c12IssueInstant(c *Ctx) {
 		if p {
 			specOK = Bptr(false)
 		}
-		c.Count(fmt.Sprintf("issueinstant/sub_ms/%v", now.Nanosecond()%1000000 != 0))
 		c.Count(fmt.Sprintf("issueinstant/accepted_at_bound/%v", atBound))
 		c.Count(fmt.Sprintf("issueinstant/accepted_after_bound/%v", after))
-		ns := new(big.Int).Mul(big.NewInt(now.Unix()), big.NewInt(1e9))
-		ns.Add(ns, big.NewInt(int64(now.Nanosecond())))
-		c.Add(g, &Case{
-			Key:   map[string]string{"op": "issue_instant", "binding": []string{"post", "redirect", "redirect"}[i%3]},
-			Input: map[string]any{"sp_clock": now.Format(time.RFC3339Nano), "max_issue_delay": saml.MaxIssueDelay.String()},
-			Obs:   map[string]any{"IssueInstant": text, "idp_accepts_at_instant_plus_delay": atBound, "idp_accepts_one_ns_later": after},
-			Term: fmt.Sprintf("{| ii_now := %s; ii_text := %s; ii_at_bound := %s; ii_after_bound := %s |}",
-				emit.ZBig(ns.String()), emit.Str(text), emit.Bool(atBound), emit.Bool(after)),
-			ImplSpecOK: specOK,
-		})
+		addCase(now, []string{"AuthnRequest/post", "AuthnRequest/redirect", "AuthnRequest/redirect"}[i%3], text, atBound, after, specOK)
 	}
 }
